@@ -432,6 +432,8 @@ def peel_payload(e):
             y = peel_payload(x)
             if y is not x:
                 x = y
+        if e[1][2] == 'Break' and x[0] == 'agg' and x[2] in ('Err', 'None'):
+            return x            # the residual carried by `Break(..)` of `branch(Err(e))` is the value `Err(e)` itself
         if x[0] == 'agg' and x[2] in _COMPAT.get(e[1][2], (e[1][2],)) and int(e[2]) < len(x[3]):
             return x[3][int(e[2])]
     return e
